@@ -193,23 +193,26 @@ ShapeName(e) == "any"
 (* file events                                                             *)
 (***************************************************************************)
 \* value of row r of the column with leaf ids: same as Node but leaves carry their slot number
-RECURSIVE NodeId(_, _, _)
-NodeId(sc, k, j) ==
+RECURSIVE NodeId(_, _, _, _)
+NodeId(sc, k, j, base) ==
   IF sc.v[k][j] = 0 THEN [t |-> "n", id |-> -1, c |-> <<>>]
-  ELSE CASE sc.kinds[k] = "I" -> [t |-> "i", id |-> j - 1, c |-> <<>>]
-         [] sc.kinds[k] = "S" -> [t |-> "s", id |-> -1, c |-> <<NodeId(sc, k+1, j)>>]
-         [] sc.kinds[k] = "F" -> [t |-> "f", id |-> -1, c |-> [i \in 1..Dim |-> NodeId(sc, k+1, (j-1)*Dim + i)]]
-         [] sc.kinds[k] = "L" -> [t |-> "l", id |-> -1, c |-> [i \in 1..sc.lens[k][j] |-> NodeId(sc, k+1, Off(sc, k, j) + i)]]
-\* file layout: the written column is `reps` copies of the scenario column one after the other
-\* (tiling makes files with several mini-block chunks); leaf ids are positions inside one copy
-FileRow(sc, r) == NodeId(sc, 1, ((r % Rows(sc)) + 1))
-ReadOK(sc, rd) ==
+  ELSE CASE sc.kinds[k] = "I" -> [t |-> "i", id |-> base + j - 1, c |-> <<>>]
+         [] sc.kinds[k] = "S" -> [t |-> "s", id |-> -1, c |-> <<NodeId(sc, k+1, j, base)>>]
+         [] sc.kinds[k] = "F" -> [t |-> "f", id |-> -1, c |-> [i \in 1..Dim |-> NodeId(sc, k+1, (j-1)*Dim + i, base)]]
+         [] sc.kinds[k] = "L" -> [t |-> "l", id |-> -1, c |-> [i \in 1..sc.lens[k][j] |-> NodeId(sc, k+1, Off(sc, k, j) + i, base)]]
+\* file layout: the written column is Tile(sc, reps) (RepDefOps): `reps` copies of the scenario column
+\* one after the other, which makes files with several mini-block chunks.  Leaf ids are positions
+\* inside one copy, or -- when e.unique -- copy * (leaf slots per copy) + position.
+FileRow(e, r) ==
+  LET sc == e.parts[1] IN
+  NodeId(sc, 1, (r % Rows(sc)) + 1, IF e.unique THEN (r \div Rows(sc)) * Slots(sc, NL(sc)) ELSE 0)
+ReadOK(e, rd) ==
   /\ rd.error = ""
   /\ Len(rd.got) = Len(rd.rows)
-  /\ \A x \in 1..Len(rd.rows) : rd.got[x] = FileRow(sc, rd.rows[x])
+  /\ \A x \in 1..Len(rd.rows) : rd.got[x] = FileRow(e, rd.rows[x])
 FileOK(e) ==
   /\ e.error = ""
-  /\ \A x \in 1..Len(e.reads) : ReadOK(e.parts[1], e.reads[x])
+  /\ \A x \in 1..Len(e.reads) : ReadOK(e, e.reads[x])
 \* Why could the file path go wrong on this column?  (the finding signature)
 \* The pages of the file are reconstructed (one page, or the two written batches when every batch
 \* becomes a page) and the named deviations of the rep/def code are tried on them.  Two more classes
